@@ -451,10 +451,11 @@ class Ctx:
             allok = False
             self.broken_theorem = "make failed: " + log[-500:]
         # property theorems + Print Assumptions
-        names = theorems_in(os.path.join(COQ, prop_file + ".v"))
+        prop_files = [prop_file] + [e for e in extra_files if e.startswith("Properties_")]
+        names = [n for pf in prop_files for n in theorems_in(os.path.join(COQ, pf + ".v"))]
         self.theorem_names = names
         if allok and names:
-            v = "From Gama Require Import %s.\n" % prop_file + "".join(
+            v = "".join("From Gama Require Import %s.\n" % pf for pf in prop_files) + "".join(
                 'Goal True. idtac "@@%s". Abort.\nPrint Assumptions %s.\n' % (n, n) for n in names)
             rc, out = coq_run(v, self.scratch, name="assume_" + self.pid, timeout=600)
             self.checker_cmds.append("coqc -Q coq Gama assume_%s.v  (Print Assumptions for %d theorems)" % (self.pid, len(names)))
